@@ -81,9 +81,12 @@ def minimize(
     config = TreeConfig(level_config, gsc, sprout_condition, options=options)
     hms_tree = DemeTree(config)
     hms_tree.run()
+    # Once maxfun is reached EvalCutoffProblem stops forwarding evaluations to fun,
+    # so the number of calls made to fun is its counter, not the number of requests.
+    nfev = wrapped_function_problem.n_evaluations if maxfun else hms_tree.n_evaluations
     return OptimizeResult(
         x=hms_tree.best_individual.genome,
-        nfev=hms_tree.n_evaluations,
+        nfev=nfev,
         fun=hms_tree.best_individual.fitness,
         nit=hms_tree.metaepoch_count,
     )
